@@ -53,9 +53,11 @@ func (fc *FnCtx) memVar(elem types.Type) string {
 func (fc *FnCtx) mapVars(mt *types.Map) (dom, val, ln string) {
 	u := fc.eng.U
 	ks, vs := u.SortOf(mt.Key()), u.SortOf(mt.Elem())
-	dom = "MapDom_" + mangle(string(ks))
-	val = "MapVal_" + mangle(string(ks)) + "_" + mangle(string(vs))
-	ln = "MapLen_" + mangle(string(ks))
+	// one set of heap variables per Go map type (maps of different types cannot alias)
+	key := typeKey(mt.Key()) + "_" + typeKey(mt.Elem())
+	dom = "MapDom_" + key
+	val = "MapVal_" + key
+	ln = "MapLen_" + key
 	fc.stateVar(dom, ArraySort(SInt, ArraySort(ks, SBool)), true)
 	fc.stateVar(val, ArraySort(SInt, ArraySort(ks, vs)), true)
 	fc.stateVar(ln, ArraySort(SInt, SInt), true)
